@@ -87,7 +87,20 @@ func (s *swamp) PatchExpired(howMany int32, ops []msgpackpatch.Op, condition *ms
 	// SaveFunction's IsExpirationTimeChanged branch already re-added
 	// any of them.
 	verifhook.Point("swamp.patchExpired.beforeReindex")
+	// Only treasures that are still the live record under their key go back
+	// into the expiration index: a treasure deleted (or shifted) by someone
+	// else since the selection must not reappear there, or a later
+	// ShiftExpired / PatchExpired would hand out a record that no longer
+	// exists.
+	selected = s.stillStored(selected)
 	s.expirationTimeBeaconASC.ReindexExpiration(selected)
+	// A delete that ran between the check above and the re-insert has already
+	// done its index cleanup; drop what it could not see.
+	for _, t := range selected {
+		if key := t.GetKey(); s.beaconKey.Get(key) == nil {
+			s.deleteTreasureIfBeaconInitialized(s.expirationTimeBeaconASC, key)
+		}
+	}
 	// Re-add to DESC by appending each + re-sort. addToExpirationTimeBeacon
 	// handles both ASC and DESC, but we already did ASC via ReindexExpiration
 	// so reuse the DESC half by manual Add + sort. Simpler: invoke
@@ -105,9 +118,26 @@ func (s *swamp) PatchExpired(howMany int32, ops []msgpackpatch.Op, condition *ms
 	if s.expirationTimeBeaconDESC.IsInitialized() {
 		// Sort DESC once at the end.
 		_ = s.expirationTimeBeaconDESC.SortByExpirationTimeDesc()
+		for _, t := range selected {
+			if key := t.GetKey(); s.beaconKey.Get(key) == nil {
+				s.expirationTimeBeaconDESC.Delete(key)
+			}
+		}
 	}
 
 	return results, capReached, nil
+}
+
+// stillStored returns the treasures that are still the live record stored
+// under their key in the main key index.
+func (s *swamp) stillStored(treasures []treasure.Treasure) []treasure.Treasure {
+	out := make([]treasure.Treasure, 0, len(treasures))
+	for _, t := range treasures {
+		if s.beaconKey.Get(t.GetKey()) == t {
+			out = append(out, t)
+		}
+	}
+	return out
 }
 
 // capBudgetOverSwamp must be called with capMu held. It counts the records
@@ -145,6 +175,17 @@ func (s *swamp) applyPatchExpiredOne(treasureObj treasure.Treasure, ops []msgpac
 	defer treasureObj.ReleaseTreasureGuard(guardID)
 
 	entry := PatchExpiredEntry{Key: treasureObj.GetKey()}
+
+	// The treasure was selected under the beacon mu, but a concurrent Delete /
+	// Shift may have removed it from the swamp before we got its guard
+	// (deleteHandler removes it from the key index while holding the same
+	// guard). A treasure that was never flushed keeps its content after such a
+	// delete, so the content-type test below cannot see it; patching and
+	// saving it would silently re-insert the deleted record as a new one.
+	if s.beaconKey.Get(entry.Key) != treasureObj {
+		entry.Status = PatchStatusKeyNotFound
+		return entry
+	}
 
 	switch treasureObj.GetContentType() {
 	case treasure.ContentTypeByteArray:
